@@ -905,6 +905,67 @@ def lambda_normal(prog, t):
     return subst(t, f)
 
 
+def _late_bound_rewrite(nodes, targets, escaping_only=False):
+    """Python closures bind names late: a lambda / def created inside a comprehension or loop that reads the iteration
+    variable sees its value at CALL time (after a list comprehension: the LAST element), unless it was captured through
+    a default argument.  Returns (rewritten copies of nodes, set of captured target names): inside such closures the
+    free reads of a target name t are renamed __late_t.  With escaping_only, only closures that are stored (assigned,
+    appended, returned) are rewritten - one handed directly to a call is taken to be consumed within the iteration."""
+    import copy
+    captured = set()
+    escaping_calls = {"append", "insert", "extend", "add", "setdefault", "update"}
+
+    def free_reads(fn):
+        params = {a.arg for a in fn.args.posonlyargs + fn.args.args + fn.args.kwonlyargs}
+        if fn.args.vararg:
+            params.add(fn.args.vararg.arg)
+        if fn.args.kwarg:
+            params.add(fn.args.kwarg.arg)
+        body = [fn.body] if isinstance(fn, ast.Lambda) else fn.body
+        out = []
+        for b in body:
+            for n in ast.walk(b):
+                if isinstance(n, ast.Name) and isinstance(n.ctx, ast.Load) and n.id in targets and n.id not in params:
+                    out.append(n)
+        return out
+
+    def called_names(stmts):
+        return {c.func.id for s_ in stmts for c in ast.walk(s_) if isinstance(c, ast.Call) and isinstance(c.func, ast.Name)}
+
+    def escapes(par, fn, stmts):
+        if isinstance(fn, ast.FunctionDef):
+            return fn.name not in called_names(stmts)  # a nested def called in the same iteration is consumed there
+        p = par.get(fn)
+        if isinstance(p, ast.Assign) and len(p.targets) == 1 and isinstance(p.targets[0], ast.Name):
+            return p.targets[0].id not in called_names(stmts)
+        if isinstance(p, ast.Call):
+            if p.func is fn:
+                return False  # immediately invoked
+            f = p.func
+            if isinstance(f, ast.Attribute) and f.attr in escaping_calls:
+                return True
+            return False
+        if isinstance(p, ast.keyword):
+            return False
+        return True  # assigned, put in a container display, returned, yielded ...
+
+    new = [copy.deepcopy(n) for n in nodes]
+    root_all = new
+    for root in new:
+        par = {}
+        for n in ast.walk(root):
+            for ch in ast.iter_child_nodes(n):
+                par[ch] = n
+        for n in list(ast.walk(root)):
+            if isinstance(n, (ast.Lambda, ast.FunctionDef)) and (n is not root or isinstance(n, ast.Lambda)):
+                if escaping_only and not escapes(par, n, root_all):
+                    continue
+                for nm in free_reads(n):
+                    captured.add(nm.id)
+                    nm.id = "__late_" + nm.id
+    return new, captured
+
+
 class Interp:
     def __init__(self, prog: Program, *, inline_repo=True, fold_classvars=True,
                  no_inline: set[str] | None = None):
@@ -1088,6 +1149,14 @@ class Interp:
             names = [p.arg for p in a.posonlyargs + a.args + a.kwonlyargs]
             d = self.depth
             env = Env(v.env)
+            if isinstance(fn, ast.Lambda) and a.defaults and not a.kwonlyargs and not a.vararg and not a.kwarg:
+                # `lambda v, b=b: ...` - the early-binding idiom: as a term, the defaulted trailing parameters are
+                # bound to their defaults (evaluated where the lambda was created) and the arity is what remains
+                pos = a.posonlyargs + a.args
+                nd = len(a.defaults)
+                for p_, dflt in zip(pos[len(pos) - nd:], a.defaults):
+                    env.set(p_.arg, self.as_term(self.ev_any(dflt, v.env, v.ctx)))
+                names = [p_.arg for p_ in pos[:len(pos) - nd]]
             for i, n in enumerate(names):
                 env.set(n, ("bv", d, i))
             if a.vararg:
@@ -1444,6 +1513,20 @@ class Interp:
 
     def exec_for(self, st: ast.For, env: Env, ctx):
         it = self.ev(st.iter, env, ctx)
+        tnames = {n.id for n in ast.walk(st.target) if isinstance(n, ast.Name)}
+        if any(isinstance(n, (ast.Lambda, ast.FunctionDef)) for b in st.body for n in ast.walk(b)):
+            body2, cap = _late_bound_rewrite(st.body, tnames, escaping_only=True)
+            if cap:
+                # a closure stored by the loop body reads the loop variable when called (usually after the loop)
+                st = ast.For(target=st.target, iter=st.iter, body=body2, orelse=st.orelse, lineno=st.lineno,
+                             col_offset=st.col_offset)
+                for t in cap:
+                    if isinstance(st.target, ast.Name):
+                        last = it[1][-1] if it[0] in ("tuple", "list") and it[1] and not any(
+                            x[0] == "star" for x in it[1]) else proj_sub(it, C(-1))
+                    else:
+                        last = ("unknown", f"loop variable {t} captured by a stored closure (late binding)")
+                    env.set("__late_" + t, last)
         # static unrolling over a literal tuple/list
         if it[0] in ("tuple", "list") and not any(x[0] == "star" for x in it[1]) and len(it[1]) <= 24:
             for item in it[1]:
@@ -1460,7 +1543,12 @@ class Interp:
         local_only = [n for n in assigned if not env.has(n)]
         d = self.depth
         body_env = Env(env)
-        self.assign(st.target, ("bv", d, 0), body_env, ctx)
+        elem = ("bv", d, 0)
+        while it[0] == "map" and it[1][0] == "lam" and it[1][1] == 1 and isinstance(st.target, ast.Name):
+            # for y in (f(e) for e in xs): ...   ==   for e in xs: y = f(e); ...
+            elem = self.beta(it[1], [elem])
+            it = it[2]
+        self.assign(st.target, elem, body_env, ctx)
         for i, n in enumerate(carried):
             body_env.set(n, ("bv", d, 1 + i))
         self.depth += 1
@@ -1726,13 +1814,28 @@ class Interp:
             d = self.depth
             e2 = Env(env)
             self.assign(g.target, ("bv", d, 0), e2, ctx)
+            elt_here = elt
+            if gi + 1 == len(gens):
+                tnames = {n.id for n in ast.walk(g.target) if isinstance(n, ast.Name)}
+                (elt2,), cap = _late_bound_rewrite([elt], tnames)
+                if cap:
+                    # closures built by the comprehension read the iteration variable when CALLED: its last value
+                    elt_here = elt2
+                    for t in cap:
+                        if isinstance(g.target, ast.Name) and not g.ifs and len(gens) == 1 and isinstance(
+                                node, (ast.ListComp, ast.SetComp)):
+                            last = it[1][-1] if it[0] in ("tuple", "list") and it[1] and not any(
+                                x[0] == "star" for x in it[1]) else proj_sub(it, C(-1))
+                        else:
+                            last = ("unknown", f"comprehension variable {t} captured by a closure (late binding)")
+                        e2.set("__late_" + t, last)
             self.depth += 1
             try:
                 conds = [self.ev(c, e2, ctx) for c in g.ifs]
                 if gi + 1 < len(gens):
                     body = build(gi + 1, e2)
                 else:
-                    body = self.ev(elt, e2, ctx)
+                    body = self.ev(elt_here, e2, ctx)
             finally:
                 self.depth -= 1
             src = it
